@@ -85,6 +85,11 @@ class ConcatenateColumns(Family):
             gs[0].ra.__class__ = RaggedArray
         ok = (type(out) is Recording and len(made) == 1 and not made[0][1] and not made[0][2] and isinstance(made[0][0], list) and len(made[0][0]) == 1
               and len(gi["arrays"]) >= m)
+        if not (len(made) == 1 and isinstance(made[0][0], list) and len(made[0][0]) == 1 and len(gi["arrays"]) >= m):
+            # an implementation of another shape (no row list built by iterating the operands): this script cannot state its contract - undecided, the
+            # family's concrete cases and the stand-in decide
+            from ..sym.core import Unsupported
+            raise Unsupported("concatenate(axis=1) does not build its result from a list of joined rows; the proof script knows only that shape")
         ctx.prove("post.built by the first operand's class from one list holding one joined row per iteration", z3.BoolVal(ok))
         if not ok:
             return
